@@ -339,9 +339,9 @@ loop:
 // generator until the integrator has decided between a repair and a known finding; VERIF_PENDING=<slug>,... switches a
 // class on for one run.
 const (
-	c11PendingDirRenamedAway = false // DEFECT-PENDING(dir-renamed-away)
-	c11PendingLinkRetarget   = false // DEFECT-PENDING(symlinked-dir-retarget)
-	c11PendingQueueOverflow  = false // DEFECT-PENDING(queue-overflow)
+	c11PendingDirRenamedAway = true  // DEFECT-PENDING(dir-renamed-away)
+	c11PendingLinkRetarget   = true  // the re-pointing half is known finding C11/symlinked-dir-retarget, the removal half repaired (D28)
+	c11PendingQueueOverflow  = true  // DEFECT-PENDING(queue-overflow)
 )
 
 func c11Pending(slug string) bool {
@@ -1172,6 +1172,7 @@ func c11History(r *hx.R, root string, idx int, tier string, st *c11Stats) hx.Cas
 				labels = append(labels, hx.P(hx.C("LOp", hx.C("OMkdir", hx.S(dirs[d]))), hx.B(ok)))
 				labels = append(labels, hx.P(hx.C("LOp", hx.C("OWrite", hx.S(dirs[d]), hx.S(name), c11Pool[c].term)), hx.B(ok)))
 				human = append(human, fmt.Sprintf("point the link d%d at another directory holding %s %s => %v", d, name, c11Pool[c].term, ok))
+				known = "C11/symlinked-dir-retarget"
 				if ok {
 					nOK++
 				}
